@@ -22,7 +22,7 @@ func scopeDom() []string {
 func init() {
 	register(&PropRule{
 		ID:    "C06",
-		Roots: []string{"./router"},
+		Roots: []string{"./router/..."},
 		Explain: "Decides the complete decision table of validateEgressID (1200 cells over ingress " +
 			"internal/external, egress link known, egress scope, ingress and egress link type in " +
 			"{unset,core,parent,child,peer}, effective cross-over, construction direction) against " +
@@ -79,6 +79,7 @@ func init() {
 }
 
 func runC06(c *Ctx) {
+	c06LinkScopes(c)
 	procStateFresh(c, "S1-per-packet-state")
 	pp := "4:router.slowPathType"
 	unkIn := c.Const("pkg/slayers.SCMPCodeUnknownHopFieldIngress")
